@@ -28,13 +28,35 @@ class _Marks(dict):
         super().__init__({k: f'@{units}@{k}@' for k in keys})
 
 
+_STDLIB_OK = {'functools', 'collections', 'copy', 'typing', 'itertools', 'operator'}
+
+
 def _exec_without_imports(src, ns, what):
     try:
         tree = ast.parse(src)
     except SyntaxError as e:
         raise TranslationError(f'{what}: {e}')
-    tree.body = [n for n in tree.body if not isinstance(n, (ast.Import, ast.ImportFrom))]
-    exec(compile(tree, what, 'exec'), ns)
+    # imports of the package under test are replaced by the stubs in `ns`; plain standard-library imports
+    # (functools, collections, copy, typing ...) are executed so that a decorator or helper taken from them is
+    # evaluated as written instead of crashing the extraction
+    keep = []
+    for n in tree.body:
+        if isinstance(n, ast.Import):
+            if all(a.name.split('.')[0] in _STDLIB_OK for a in n.names):
+                keep.append(n)
+            continue
+        if isinstance(n, ast.ImportFrom):
+            if n.level == 0 and n.module and n.module.split('.')[0] in _STDLIB_OK:
+                keep.append(n)
+            continue
+        keep.append(n)
+    tree.body = keep
+    try:
+        exec(compile(tree, what, 'exec'), ns)
+    except TranslationError:
+        raise
+    except Exception as e:
+        raise TranslationError(f'{what}: module body raises {type(e).__name__}: {e}')
     return tree
 
 
@@ -166,6 +188,49 @@ def extract_tables():
                 out['errors'][f'{fname}:hybrid {sub}'] = f'{type(e).__name__}: {e}'
             if notes:
                 forwarded = False
+        # hybrid composition: what the real function returns for every ordered pair of sub-styles and a fixed set
+        # of longer hybrids (the actual prop_info list, duplicates and all); `hybrid_samples_agree` re-proves on
+        # every run that the hand-written `hybridCols` of the model produces exactly these lists
+        good = [s for s, c in table if c]
+        combos = [(a, b) for a in good for b in good if a != b and 'atomic' not in (a, b)]
+        crng = random.Random(20260928)          # fixed: the generated file must not depend on VERIF_SEED
+        nlong = 60 if key == 'atom' else 30
+        for _ in range(nlong):
+            combos.append(tuple(crng.sample(good, crng.choice([3, 3, 4, 5]))))
+        combos += [(a,) for a in good] + [('atomic', good[0]), (good[-1], 'atomic', good[0])]
+        if key == 'vel':
+            special = [s for s, c in table if len(c) > 2] + [s for s, c in table if c and len(c) <= 2][:3]
+            combos = [c for c in combos if len(c) != 2 or (c[0] in special and c[1] in special)]
+        samples = []
+        for subs in combos:
+            notes = set()
+            try:
+                cols = _cols(ns[fname]('hybrid ' + ' '.join(subs), probe_units), probe_units,
+                             f'{fname}(hybrid {" ".join(subs)})', notes)
+            except TranslationError:
+                raise
+            except Exception as e:
+                out['errors'][f'{fname}:hybrid {" ".join(subs)}'] = f'{type(e).__name__}: {e}'
+                cols = []
+            if notes:
+                forwarded = False
+            seen_props = [c[0] for c in cols]
+            twice = sorted({x for x in seen_props if seen_props.count(x) > 1})
+            if twice:
+                raise TranslationError(f'{fname}("hybrid {" ".join(subs)}") lists {twice} more than once: the table '
+                                       'writer would convert that column once per entry (theorem '
+                                       'atom_columns_no_property_twice no longer describes the code)')
+            samples.append((list(subs), cols))
+        out[key + '_hybrids'] = samples
+        # the base tables once more after all hybrid calls: a table function that remembers earlier calls
+        # (cache, shared mutable list) shows up as a different answer
+        for st, cols in table:
+            if not cols:
+                continue
+            again = _cols(ns[fname](st, probe_units), probe_units, f'{fname}({st!r})', set())
+            if again != cols:
+                raise TranslationError(f'{fname}({st!r}) answers differently after hybrid calls: {again} vs {cols} '
+                                       '(the function is not pure)')
     out['hybrid_forwards_units'] = forwarded
     # dump standard conversions
     rel = 'atomman/dump/atom_dump/process_prop_info.py'
@@ -195,6 +260,15 @@ def translate():
         rows = []
         for st, cols in t[key]:
             rows.append(f'  ({_lean_str(st)}, [{", ".join(_lean_col(c) for c in cols)}])')
+        L.append(',\n'.join(rows) + ']')
+        L.append('')
+    for key, name, doc in (('atom_hybrids', 'atomHybrids', 'atoms_prop_info'), ('vel_hybrids', 'velHybrids', 'velocities_prop_info')):
+        L.append(f'/-- what `{doc}("hybrid " ++ sub-styles)` returns (every ordered pair of sub-styles, single sub-styles and a')
+        L.append('    fixed set of longer hybrids): the actual list, with any duplicate entry it may contain. -/')
+        L.append(f'def {name} : List (List String × List Col) := [')
+        rows = []
+        for subs, cols in t[key]:
+            rows.append(f'  ([{", ".join(_lean_str(x) for x in subs)}], [{", ".join(_lean_col(c) for c in cols)}])')
         L.append(',\n'.join(rows) + ']')
         L.append('')
     L.append('/-- `standard_conversions` of the dump-file writer. -/')
@@ -237,6 +311,8 @@ THEOREMS = [
     'C07.poscar_scale', 'C07.info_names_used',
     'C07.atom_style_columns_match_lammps', 'C07.velocity_columns_match_lammps', 'C07.dump_columns_match_lammps',
     'C07.unit_styles_match_lammps',
+    # every column list names a property once (hybrids of any length); the hybrid composition is the real one
+    'C07.atom_columns_no_property_twice', 'C07.vel_columns_no_property_twice', 'C07.hybrid_samples_agree',
 ]
 PARTIAL = {
     'inside the written bounds / lo < hi AFTER rounding':
@@ -538,6 +614,33 @@ FORMATS_F = ['f13', 'f13', 'f13', 'f5', 'f8', 'f3', 'f16', 'f1', 'e13', 'e8', 'e
 
 # ---- the real calls ---------------------------------------------------------------------
 
+def _dump_via(s, fmt, out, **kw):
+    """System.dump through one of its three output channels: the returned string (`out` None), a file name
+    ('path:<name>') or an open text stream ('stream').  -> (text, other return values)"""
+    if out is None:
+        r = s.dump(fmt, **kw)
+        return (r, None) if isinstance(r, str) else (r[0], r[1:])
+    if out == 'stream':
+        import io
+        buf = io.StringIO()
+        r = s.dump(fmt, f=buf, **kw)
+        return buf.getvalue(), r
+    import os
+    import shutil
+    import tempfile
+    name = out.split(':', 1)[1]
+    tmp = tempfile.mkdtemp(prefix='c07_')
+    cwd = os.getcwd()
+    os.chdir(tmp)
+    try:
+        r = s.dump(fmt, f=name, **kw)
+        with open(name) as fh:
+            return fh.read(), r
+    finally:
+        os.chdir(cwd)
+        shutil.rmtree(tmp, ignore_errors=True)
+
+
 def real_data(d, style, units, ff, natypes=None, fname=None):
     """-> ('ok', text, info, system_after) | (errclass,)"""
     s = build_system(d)
@@ -545,28 +648,18 @@ def real_data(d, style, units, ff, natypes=None, fname=None):
         kw = {}
         if natypes is not None:
             kw['natypes'] = natypes
-        if fname is None:
-            text, info = s.dump('atom_data', atom_style=style, units=units, float_format=fmt_py(ff), **kw)
-        else:
-            import os
-            import tempfile
-            tmp = tempfile.mkdtemp(prefix='c07_')
-            cwd = os.getcwd()
-            os.chdir(tmp)
-            try:
-                info = s.dump('atom_data', f=fname, atom_style=style, units=units, float_format=fmt_py(ff), **kw)
-                with open(fname) as fh:
-                    text = fh.read()
-            finally:
-                os.chdir(cwd)
-                import shutil
-                shutil.rmtree(tmp, ignore_errors=True)
+        out = None if fname is None else 'stream' if fname == '<stream>' else 'path:' + fname
+        text, info = _dump_via(s, 'atom_data', out, atom_style=style, units=units, float_format=fmt_py(ff), **kw)
+        if out is None:
+            info = info[0]
+        if not isinstance(info, str):
+            return ('err:value', f'dump returned {info!r} instead of the command snippet')
         return ('ok', text, info, s)
     except Exception as e:  # noqa
         return (err_class(e), f'{type(e).__name__}: {e}')
 
 
-def real_dump(d, units, ff, prop_names=None, timestep=0):
+def real_dump(d, units, ff, prop_names=None, timestep=0, out=None):
     s = build_system(d)
     if timestep:
         s.timestep = timestep      # what a system loaded from a dump file carries
@@ -574,24 +667,24 @@ def real_dump(d, units, ff, prop_names=None, timestep=0):
         kw = {}
         if prop_names is not None:
             kw['prop_name'] = list(prop_names)
-        return ('ok', s.dump('atom_dump', lammps_units=units, float_format=fmt_py(ff), **kw))
+        return ('ok', _dump_via(s, 'atom_dump', out, lammps_units=units, float_format=fmt_py(ff), **kw)[0])
     except Exception as e:  # noqa
         return (err_class(e), f'{type(e).__name__}: {e}')
 
 
-def real_poscar(d, ff, coordstyle, scale, header, symbols):
+def real_poscar(d, ff, coordstyle, scale, header, symbols, out=None):
     s = build_system(d)
     try:
         kw = {}
         if symbols is not None:
             kw['symbols'] = symbols
-        return ('ok', s.dump('poscar', header=header, coordstyle=coordstyle, box_scale=scale,
-                             float_format=fmt_py(ff), **kw))
+        return ('ok', _dump_via(s, 'poscar', out, header=header, coordstyle=coordstyle, box_scale=scale,
+                                float_format=fmt_py(ff), **kw)[0])
     except Exception as e:  # noqa
         return (err_class(e), f'{type(e).__name__}: {e}')
 
 
-def real_table(d, ff, cols, units, header):
+def real_table(d, ff, cols, units, header, out=None):
     """cols: list of (prop, unitspec, names) ; unitspec 'none' | 'scaled' | kind"""
     from atomman.lammps import style
     s = build_system(d)
@@ -605,8 +698,8 @@ def real_table(d, ff, cols, units, header):
                 unit.append('scaled')
             else:
                 unit.append('*'.join(lu[p] for p in us.split('*')))
-        return ('ok', s.dump('table', prop_name=[c[0] for c in cols], table_name=[c[2] for c in cols], unit=unit,
-                             header=header, float_format=fmt_py(ff)))
+        return ('ok', _dump_via(s, 'table', out, prop_name=[c[0] for c in cols], table_name=[c[2] for c in cols],
+                                unit=unit, header=header, float_format=fmt_py(ff))[0])
     except Exception as e:  # noqa
         return (err_class(e), f'{type(e).__name__}: {e}')
 
@@ -1083,6 +1176,8 @@ def check_data(d, style, units, ff, natypes, parsed, info=None, fname=None):
         rd = [l for l in il if l and l[0] == 'read_data']
         if fname is not None and rd != [['read_data', fname]]:
             ck.fail('info-read_data', f'read_data line {rd} does not name {fname}')
+        if fname is None and rd:
+            ck.fail('info-read_data', f'read_data line {rd} although no file name was given')
     return ck.fails
 
 
@@ -1277,17 +1372,39 @@ def check_poscar(d, ff, coordstyle, scale, symbols, parsed):
 ALL_STYLES = sorted(STYLE_PROPS)
 HYBRIDS = ['hybrid charge', 'hybrid sphere', 'hybrid charge sphere', 'hybrid molecular charge', 'hybrid dipole sphere',
            'hybrid ellipsoid charge']
+# sub-styles that define the SAME unit-bearing column (a hybrid of two of them must still write it once, converted once)
+SHARED_GROUPS = {'density': ['sphere', 'ellipsoid', 'line', 'peri', 'tri'], 'mass': ['body', 'smd'],
+                 'charge': ['charge', 'dipole', 'full', 'electron', 'wavepacket'], 'volume': ['peri', 'smd'],
+                 'eradius': ['electron', 'wavepacket']}
+SHARED_HYBRIDS = [f'hybrid {a} {b}' if (i + j) % 2 == 0 else f'hybrid {b} {a}'
+                  for g in SHARED_GROUPS.values() for i, a in enumerate(g) for j, b in enumerate(g) if i < j]
+
+
+def gen_hybrid(rng):
+    """a hybrid style of 1-5 sub-styles; more than half of them contain two sub-styles sharing a unit-bearing column."""
+    if rng.random() < 0.55:
+        grp = rng.choice(list(SHARED_GROUPS.values()))
+        subs = rng.sample(grp, 2 if len(grp) == 2 or rng.random() < 0.7 else 3)
+        for _ in range(rng.choice([0, 0, 1, 2])):
+            x = rng.choice(ALL_STYLES)
+            if x not in subs:
+                subs.insert(rng.randint(0, len(subs)), x)
+    else:
+        subs = rng.sample(ALL_STYLES, rng.randint(1, 4))
+    return 'hybrid ' + ' '.join(subs)
 
 
 def gen_data_case(rng, i):
     regime = 'grid' if i % 2 == 0 else 'generic'
     r = rng.random()
-    if r < 0.45:
+    if r < 0.40:
         style = 'atomic'
-    elif r < 0.85:
+    elif r < 0.70:
         style = rng.choice(ALL_STYLES)
-    else:
+    elif r < 0.75:
         style = rng.choice(HYBRIDS)
+    else:
+        style = gen_hybrid(rng)
     units = 'metal' if rng.random() < 0.5 else rng.choice(UNIT_STYLES)
     with_vel = rng.random() < 0.4
     lammps = rng.random() > 0.04
@@ -1296,8 +1413,9 @@ def gen_data_case(rng, i):
     natypes = None
     if rng.random() < 0.2:
         natypes = d['natypes'] + rng.randint(1, 2)
-    fname = 'atom.dat' if rng.random() < 0.08 else None
-    if rng.random() < 0.08 and STYLE_PROPS.get(style.split()[0]):
+    r = rng.random()
+    fname = 'atom.dat' if r < 0.08 else '<stream>' if r < 0.14 else None      # output channel: file name / open stream / returned
+    if rng.random() < 0.08 and needed_props(style, False):
         # drop a required property: both sides must refuse
         drop = needed_props(style, False)[0][0]
         d['props'].pop(drop, None)
@@ -1307,6 +1425,12 @@ def gen_data_case(rng, i):
 DUMP_EXTRA = [('velocity', 0, 3), ('force', 0, 3), ('charge', 0, 1), ('mass', 0, 1), ('m_id', 1, 1), ('radius', 0, 1),
               ('mu', 0, 3), ('ang_velocity', 0, 3), ('ang_momentum', 0, 3), ('torque', 0, 3), ('diameter', 0, 1),
               ('stress', 0, 9), ('myint', 1, 1), ('myvec', 0, 3), ('mu_mag', 0, 1)]
+
+
+def gen_out(rng, name):
+    """output channel of System.dump: returned string (mostly), a file name, an open text stream."""
+    r = rng.random()
+    return 'path:' + name if r < 0.07 else 'stream' if r < 0.14 else None
 
 
 def gen_dump_case(rng, i):
@@ -1330,7 +1454,7 @@ def gen_dump_case(rng, i):
         prop_names = ['atom_id', 'atype'] + rng.sample(['pos', 'spos', 'upos', 'supos'], rng.randint(1, 3)) \
             + [p for p in d['props'] if p != 'atom_id' and rng.random() < 0.7]
     return {'kind': 'dump', 'd': d, 'units': units, 'ff': ff, 'prop_names': prop_names,
-            'timestep': rng.choice([0, 0, 1, 12, 250000, 10 ** 9])}
+            'timestep': rng.choice([0, 0, 1, 12, 250000, 10 ** 9]), 'out': gen_out(rng, 'a.dump')}
 
 
 def gen_poscar_case(rng, i):
@@ -1347,7 +1471,7 @@ def gen_poscar_case(rng, i):
     header = rng.choice(['', 'test cell', 'x'])
     ff = rng.choice(['e13', 'e13', 'e8', 'e16', 'f13', 'f8', 'e5'])
     return {'kind': 'poscar', 'd': d, 'coordstyle': coordstyle, 'scale': scale, 'symbols': symbols, 'header': header,
-            'ff': ff}
+            'ff': ff, 'out': gen_out(rng, 'POSCAR')}
 
 
 def gen_table_case(rng, i):
@@ -1364,7 +1488,7 @@ def gen_table_case(rng, i):
     if rng.random() < 0.5:
         cols.insert(0, ('a_id', 'none', ['id']))
     return {'kind': 'table', 'd': d, 'units': units, 'ff': pick_format(rng, units), 'cols': cols,
-            'header': rng.random() < 0.5}
+            'header': rng.random() < 0.5, 'out': gen_out(rng, 'table.txt')}
 
 
 def dump_props_for_wire(c):
@@ -1386,13 +1510,19 @@ def dump_props_for_wire(c):
     return out
 
 
+def info_fname(c):
+    """the file name the command snippet must name: only a str `f` is one (not an open stream)."""
+    f = c.get('fname')
+    return None if f in (None, '<stream>') else f
+
+
 def model_line(c):
     d = c['d']
     if c['kind'] == 'data':
         dd = dict(d)
         if c['natypes'] is not None:
             dd['natypes'] = c['natypes']
-        return (f"data {c['ff']} {c['style'].replace(' ', '+')} {c['units']} {c['fname'] or '-'} {enc_sys(dd)} "
+        return (f"data {c['ff']} {c['style'].replace(' ', '+')} {c['units']} {info_fname(c) or '-'} {enc_sys(dd)} "
                 f"{enc_units(unit_factors(c['units']))}")
     if c['kind'] == 'dump':
         pw = dump_props_for_wire(c)
@@ -1414,10 +1544,10 @@ def real_call(c):
     if c['kind'] == 'data':
         return real_data(c['d'], c['style'], c['units'], c['ff'], c['natypes'], c['fname'])
     if c['kind'] == 'dump':
-        return real_dump(c['d'], c['units'], c['ff'], c['prop_names'], c.get('timestep', 0))
+        return real_dump(c['d'], c['units'], c['ff'], c['prop_names'], c.get('timestep', 0), c.get('out'))
     if c['kind'] == 'poscar':
-        return real_poscar(c['d'], c['ff'], c['coordstyle'], c['scale'], c['header'], c['symbols'])
-    return real_table(c['d'], c['ff'], c['cols'], c['units'], c['header'])
+        return real_poscar(c['d'], c['ff'], c['coordstyle'], c['scale'], c['header'], c['symbols'], c.get('out'))
+    return real_table(c['d'], c['ff'], c['cols'], c['units'], c['header'], c.get('out'))
 
 
 def case_sample(c):
@@ -1743,6 +1873,14 @@ def correspond(ctx):
     nd, nu, npo, nt = ctx.n(260, 6000), ctx.n(160, 3000), ctx.n(160, 3000), ctx.n(60, 1000)
     cases = [gen_data_case(rng, i) for i in range(nd)] + [gen_dump_case(rng, i) for i in range(nu)] \
         + [gen_poscar_case(rng, i) for i in range(npo)] + [gen_table_case(rng, i) for i in range(nt)]
+    # hybrids whose sub-styles define the same unit-bearing column, each under a unit style with a charge / mass /
+    # density / length factor other than one (the model converts every column exactly once)
+    for k, st in enumerate(SHARED_HYBRIDS):
+        for un in (['si', 'cgs', 'micro'][k % 3], rng.choice(UNIT_STYLES)):
+            c = gen_data_case(rng, k)
+            c['style'], c['units'], c['ff'], c['natypes'] = st, un, pick_format(rng, un), None
+            c['d'] = gen_desc(rng, c['d']['regime'], needed_props(st, k % 3 == 0), nmax=5)
+            cases.append(c)
     for i in range(0, len(cases), 200):
         run_cases(ctx, cases[i:i + 200])
     # bounding-box map and its inverse on their own
@@ -1827,7 +1965,7 @@ def oracle_case(ctx, c, report):
         if kind == 'data':
             parsed = py_parse_data(text, c['style'])
             fails = check_data(c['d'], c['style'], c['units'], c['ff'], c['natypes'] or c['d']['natypes'], parsed,
-                               info=real[2], fname=c['fname'])
+                               info=real[2], fname=info_fname(c))
         elif kind == 'dump':
             parsed = py_parse_dump(text)
             fails = check_dump(c['d'], c['units'], c['ff'], parsed, c.get('timestep', 0))
@@ -1887,15 +2025,137 @@ def check_table(ctx, c, text, report, rp):
         report(f'table:{key}', f'table does not hold the system\'s values: {msg}', rp)
 
 
+def gen_session(rng):
+    """several data-file dumps in ONE process, alternating hybrid / base / other hybrid styles in the same unit
+    style: every file must describe its own system whatever was written before (tables that remember earlier
+    calls, shared mutable column lists)."""
+    un = rng.choice(UNIT_STYLES)
+    styles = []
+    for _ in range(rng.randint(3, 6)):
+        r = rng.random()
+        styles.append(gen_hybrid(rng) if r < 0.45 else 'atomic' if r < 0.65 else rng.choice(ALL_STYLES) if r < 0.85
+                      else rng.choice(styles) if styles else 'atomic')
+    cases = []
+    for j, st in enumerate(styles):
+        c = gen_data_case(rng, j)
+        c['style'], c['units'] = st, (un if rng.random() < 0.8 else rng.choice(UNIT_STYLES))
+        c['ff'] = pick_format(rng, c['units'])
+        c['d'] = gen_desc(rng, c['d']['regime'], needed_props(st, rng.random() < 0.3), nmax=4)
+        c['natypes'] = None
+        cases.append(c)
+    return cases
+
+
+class _QuietCtx:
+    """just enough of ctx for oracle_case outside a check run (fresh-process confirmation)."""
+
+    class _Stats:
+        def case(self, *a, **k):
+            pass
+
+    def __init__(self):
+        self.stats = self._Stats()
+        self.extra = {}
+        self.notes = []
+
+
+def _fresh_main():
+    """entry point of the confirmation subprocess: run the dumps read from stdin in order, print the failed
+    clauses of the LAST one as JSON."""
+    import json
+    import sys
+    import warnings
+    warnings.filterwarnings('ignore')
+    cases = [case_from_replay(x) for x in json.load(sys.stdin)]
+    ctx = _QuietCtx()
+    found = []
+    for j, c in enumerate(cases):
+        found = []
+        oracle_case(ctx, c, lambda key, what, rp: found.append([key, what]))
+    sys.stdout.write('\n@@RESULT@@' + json.dumps(found))
+
+
+def fails_in_fresh_process(cases):
+    """do the dumps `cases`, run in this order in a NEW interpreter on the same tree, make the last one fail?
+    -> list of [key, what] (empty: no) | None (could not be run)."""
+    import json
+    import os
+    import subprocess
+    import sys
+    env = dict(os.environ)
+    env['PYTHONPATH'] = os.pathsep.join([p for p in sys.path if p])
+    env['PYTHONWARNINGS'] = 'ignore'
+    try:
+        r = subprocess.run([sys.executable, '-c', 'from harness.props import c07; c07._fresh_main()'],
+                           input=json.dumps([case_replay(c) for c in cases]), capture_output=True, text=True,
+                           env=env, timeout=600, cwd=str(cm.VERIF) if hasattr(cm, 'VERIF') else None)
+    except Exception:  # noqa
+        return None
+    if '@@RESULT@@' not in r.stdout:
+        return None
+    return json.loads(r.stdout.split('@@RESULT@@', 1)[1])
+
+
+_confirm_budget = {'left': 8}
+
+
+def oracle_session(ctx, cases, report):
+    """run the dumps of a session in order.  A failed clause is confirmed in a fresh interpreter before it is
+    reported, so that the replay stored with it reproduces: the failing dump alone if that fails on its own, else
+    the sequence up to it (state kept between calls), else (it depends on calls made earlier in this process by
+    other parts of the run) the search goes on to a sequence that reproduces from scratch."""
+    for j, c in enumerate(cases):
+        found = []
+        oracle_case(ctx, c, lambda key, what, rp: found.append((key, what, rp)))
+        if not found:
+            continue
+        prefix = cases[:j + 1]
+        if _confirm_budget['left'] > 0:
+            _confirm_budget['left'] -= 1
+            alone = fails_in_fresh_process([c])
+            if alone:
+                for key, what, rp in found:
+                    report(key, what, rp)
+                return
+            seq = fails_in_fresh_process(prefix) if alone is not None else None
+            if seq == [] and alone == []:
+                ctx.extra['session_history_dependent'] = ctx.extra.get('session_history_dependent', 0) + 1
+                ctx.notes.append(f'C07 session: dump of style {c["style"]!r} fails in this process but neither alone nor after '
+                                 f'{[x["style"] for x in prefix[:-1]]} in a fresh one: {found[0][1][:200]}')
+                _history_dependent.append((found, prefix))
+                return
+        for key, what, rp in found:
+            report('session:' + key, f'dump {j + 1} of a sequence of {j + 1} dumps in one process '
+                                     f'(styles {[x["style"] for x in prefix]}; the same dump alone in a fresh process is '
+                                     f'fine): {what}',
+                   {'op': 'session', 'cases': [case_replay(x) for x in prefix], 'real': rp.get('real')})
+        return
+
+
+_history_dependent = []
+
+
 def search(ctx, broken):
     rng = random.Random(ctx.seed * 7919 + 17)
     mult = 3 if broken else 1
+    # call sequences first: their replay (a fresh process running the same sequence) reproduces state-dependent
+    # failures that a single-call replay would not
+    del _history_dependent[:]
+    _confirm_budget['left'] = 8
+    nviol = len(ctx.violations)
+    for _ in range(ctx.n(25, 400) * mult):
+        oracle_session(ctx, gen_session(rng), ctx.violate)
+    if _history_dependent and len(ctx.violations) == nviol:
+        # nothing reproduced from scratch: report what was seen, replay = the whole search
+        found, prefix = _history_dependent[0]
+        ctx.violate('session:history:' + found[0][0], 'depends on calls made earlier in the process: ' + found[0][1],
+                    {'op': 'search', 'styles': [x['style'] for x in prefix]})
     nd, nu, npo, nt = (ctx.n(260, 5000) * mult, ctx.n(150, 3000) * mult, ctx.n(150, 3000) * mult, ctx.n(50, 800) * mult)
     report = ctx.violate
     # every atom style x unit style once, deterministically, before the random stream
     base = []
     k = 0
-    for st in ALL_STYLES + HYBRIDS:
+    for st in ALL_STYLES + HYBRIDS + SHARED_HYBRIDS:
         for un in UNIT_STYLES:
             c = gen_data_case(rng, k)
             k += 1
@@ -1945,7 +2205,14 @@ def pinned_cases():
 
 def replay(ctx, payload):
     r = payload.get('replay', {})
-    if 'case' in r:
+    if r.get('op') == 'session':
+        cases = [case_from_replay(x) for x in r['cases']]
+        before = len(ctx.violations)
+        oracle_session(ctx, cases, ctx.violate)
+        for c in cases:
+            print('replay session step', {k: v for k, v in c.items() if k != 'd'})
+        print('violations on this sequence:', [(f.key, f.what) for f in ctx.violations[before:]])
+    elif 'case' in r:
         c = case_from_replay(r['case'])
         before = len(ctx.violations)
         oracle_case(ctx, c, ctx.violate)
